@@ -241,24 +241,27 @@ def worker(ctx):
                     sys.modules.pop(mn, None)
             # Go: literal decoded by Go's lexical rules
             gotext = open(os.path.join(d, "constmain_bp.go")).read()
-            for n, v in judged:
-                m = re.search(r"^const %s (\w+) = (.*)$" % re.escape(n), gotext, re.M)
-                if not m:
-                    res.violation("const-go-missing", f"{n}: no `const {n} <type> = <literal>` line in the Go output (a literal broken over lines?)", {**wit, "constant": n})
+            try:
+                from vlib import sut_gotext as G
+                goconsts = {c.name: c for c in G.parse_file(gotext).consts}
+            except Exception as e:
+                res.violation("const-go-unparsable", f"Go output cannot be parsed (a literal broken over lines?): {str(e)[:200]}", wit)
+                goconsts = None
+            for n, v in (judged if goconsts is not None else []):
+                c = goconsts.get(n)
+                if c is None:
+                    res.violation("const-go-missing", f"{n}: no constant {n} in the Go output", {**wit, "constant": n})
                     continue
-                typ, lit = m.group(1), m.group(2).strip()
-                if isinstance(v, bool):
-                    ok = typ == "bool" and lit == ("true" if v else "false")
-                elif isinstance(v, int):
-                    ok = typ == "int" and re.fullmatch(r"-?(0|[1-9][0-9]*)", lit) is not None and int(lit) == v
-                else:
-                    if go_decode is None:
-                        res.count("go_string_literals_unchecked")
-                        continue
-                    try:
-                        ok = typ == "string" and go_decode(lit) == v
-                    except ValueError as e:
-                        ok = False
+                typ, lit = c.type, c.value_text
+                try:
+                    if isinstance(v, bool):
+                        ok = typ == "bool" and lit == ("true" if v else "false")
+                    elif isinstance(v, int):
+                        ok = typ == "int" and re.fullmatch(r"-?(0|[1-9][0-9]*)", lit.replace(" ", "")) is not None and int(lit.replace(" ", "")) == v
+                    else:
+                        ok = typ == "string" and go_decode is not None and go_decode(lit) == v
+                except ValueError:
+                    ok = False
                 res.count("go_literals_compared")
                 if not ok:
                     res.violation("const-go-literal", f"{n}: declared {v!r}, Go output has `{typ} = {lit[:80]}`", {**wit, "constant": n})
